@@ -112,7 +112,7 @@ def _case(draw, tier):
     elif mode == "pole-corner":
         face = draw(_pole_corner_face())
     if face is None:
-        face = draw(facegen.convex_face(max_class=3))
+        face = draw(facegen.convex_face(max_class=3, tiny=True))
         mode = "face"
     return {"mode": mode, "face": face}
 
